@@ -115,6 +115,22 @@ for _refine in (True, False):
             chain=["C01", "C02"],
             shards=1 if _nctx == 1 else 4,
         )(_tactic2(_nctx, V2, [["y"], ["x", "y"], ["y", "x"], ["x"]], _refine))
+    # a kept variable next to two eliminated ones: the LP context may mention an eliminated variable the term does not have,
+    # and miss one it has (the guard "every eliminated variable of the term is covered" matters only here)
+    for _nctx, _tier, _sh in ((1, "quick", 2), (2, "thorough", 16)):
+        contract(
+            "PolyhedralTermList._tactic_2[%s,%d context terms over x,y,z]" % ("refine" if _refine else "relax", _nctx),
+            ["C04", "C14", "C13"],
+            [PTL + "_tactic_2", PTL + "termlist_to_polytope", POLY + ":PolyhedralTerm.remove_variable"],
+            "S",
+            bound="term and %d context terms over {x,y,z} (every support); eliminated variables [y,z], [z,y] or [y]" % _nctx,
+            assumes=["A4", "A5"],
+            covers=["declined", "transformed"],
+            chain=["C01", "C02"],
+            tier=_tier,
+            shards=_sh,
+            weight=3,
+        )(_tactic2(_nctx, V3, [["y", "z"], ["z", "y"], ["y"]], _refine))
 
 
 # ------------------------------------------------------------------------------------------------
